@@ -4,6 +4,7 @@ import DadiVerif.Lemmas.AdmixExt
 import DadiVerif.Lemmas.AdmixComm
 import DadiVerif.Lemmas.AdmixFloat
 import DadiVerif.Lemmas.AdmixLoops
+import DadiVerif.Lemmas.AdmixFilter
 /-!
 # C06 — splits, admixture, pulses, removal and reordering conserve marginal densities
 
@@ -18,9 +19,16 @@ Notation: `gv g k` = grid value, `trapzW g k` = trapezoid weight of node k, `adZ
 Σ_m coefs[m]·grids[m][idx[m]], `fullCoefs dest f` = proportions `f` with `1 - Σ f` inserted at position `dest`,
 `Simplex f` = all f ≥ 0 and Σ f ≤ 1, `Grid01 g` = strictly increasing from 0 to 1, `uNat zz adz` = upper bracket index.
 
-The last two theorems (`C06_simplex_reject`, `C06_wiring_grids`) are obligations on the GENERATED wiring; they fail
-while the corresponding defects are in the source (guards evaluated on permuted arguments / missing in the 2-D functions;
-wrong grid handed to the 4-D/5-D pulses).
+`C06_simplex_reject`, `C06_wiring_grids` (and `C06_loops` of the round-4 part) are obligations on the GENERATED wiring; they
+fail while the corresponding defects are in the source (guards evaluated on permuted arguments / missing in the 2-D
+functions; wrong grid handed to the 4-D/5-D pulses; a loop that does not cover its axis, a scratch array that is not zeroed
+per line, `trapz` along the wrong scratch axis).
+
+Round 4 (second half of the file): total mass `totalMass` (full d-dimensional trapezoid sum) under reorder / remove / filter /
+constructors / pulses and for the 17 public functions as K runs them; the mixture frequency for any number of parents;
+the clamped bracket beyond the ends of the grid; pulse ∘ remove = remove ∘ pulse, two pulses; the generated loop structure;
+the proportion guard in floating point (assumptions: `RoundNearest`, `RoundEFT` of Lemmas/AdmixFloat.lean);
+`filter_pops` = marginal over the complement.
 -/
 set_option linter.unusedSimpArgs false
 set_option linter.unusedTactic false
@@ -600,5 +608,80 @@ theorem C06_simplex_reject_float (rnd : ℚ → ℚ) (u : ℚ) (hu0 : 0 ≤ u) (
   exact key
 
 example : (1 : ℚ) < (1 - 1/8) ^ 2 * ([7/10, 7/10] : List ℚ).sum := by norm_num
+
+/-! ## `filter_pops` as the iteration the code performs -/
+
+/-- `filter_pops(phi, xx, tokeep)` — `toremove = [1..ndim]` minus `tokeep` (ValueError for a repeated / foreign entry), then
+    `remove_pop(phi, xx, p)` for `p` in `sorted(toremove)[::-1]` — is, whenever it returns, the trapezoid marginal over
+    exactly the populations that are not kept, the kept ones staying in population order whatever the order of `tokeep`
+    (`margMask xx mask F`: sum out, with the weights of `xx`, the axes whose mask entry is false). -/
+theorem C06_filter (xx : Array ℚ) (keep : List ℕ) (P Q : Dens) (h : filterPops xx keep P = some Q) (j : Idx)
+    (hj : j.length = ((List.range P.shape.length).map fun a => keep.contains (a + 1)).count true) :
+    Q.f j = margMask xx ((List.range P.shape.length).map fun a => keep.contains (a + 1)) P.f j :=
+  filterPops_marg xx keep P Q h j hj
+
+/-- what `margMask` says for three populations of which the first and the third are kept -/
+example (xx : Array ℚ) (F : Idx → ℚ) (i k : ℕ) :
+    margMask xx [true, false, true] F [i, k] = ∑ m ∈ range xx.size, trapzW xx m * F [i, m, k] := rfl
+
+example : let g : Array ℚ := #[0, 1/4, 1]
+    let P : Dens := ⟨[3, 3, 3], fun i => ((i.getD 0 0 + 2 * i.getD 1 0 + i.getD 2 0 * i.getD 0 0 + 1 : ℕ) : ℚ)⟩
+    (filterPops g [3, 1] P).map (fun Q => Q.f [1, 2]) = some (13 / 2) ∧
+    (filterPops g [3, 1] P).map (fun Q => Q.f [1, 2]) = (filterPops g [1, 3] P).map (fun Q => Q.f [1, 2]) ∧
+    ((List.range 3).map fun a => ([3, 1] : List ℕ).contains (a + 1)) = [true, false, true] := by
+  decide +kernel
+
+/-! ## all ties together: every public function, as K runs it, preserves the total mass -/
+
+/-- For each of the 17 public functions, through its generated row AND its generated loop structure (`applyRowL`, the model
+    K compares with the code): proportions in the closed simplex, grids from 0 to 1 of the right lengths — the call returns
+    (no guard fires) and the full trapezoid sum of the result equals that of the input. -/
+theorem C06_fn_mass : ∀ p ∈ List.zip Gen.Admix.rows Gen.Admix.loopRows, ∀ (f : List ℚ) (grids : List (Array ℚ)) (P : Dens),
+    shapesOk p.1 f grids P = true → Simplex f → (∀ m, m < grids.length → Grid01 (grids.getD m #[])) →
+    ∃ Q, applyRowL p.1 p.2 f grids P = .ok Q ∧
+      (p.1.isPulse = true → totalMass grids Q = totalMass grids P) ∧
+      (p.1.isPulse = false → totalMass (grids.take p.1.d ++ [grids.getD p.1.d #[]]) Q = totalMass (grids.take p.1.d) P) := by
+  intro p hp f grids P hsh hs hg
+  have hr : p.1 ∈ Gen.Admix.rows := (List.of_mem_zip hp).1
+  have hw := C06_wiring_grids p.1 hr
+  have hfl : f.length = p.1.nf := by
+    simp only [shapesOk, Bool.and_eq_true, beq_iff_eq] at hsh
+    exact hsh.1.1.1.1.1.1
+  have hgl : grids.length = if p.1.isPulse then p.1.d else p.1.d + 1 := by
+    simp only [shapesOk, Bool.and_eq_true, beq_iff_eq] at hsh
+    exact hsh.1.1.1.1.2
+  have hguard := C06_simplex_accept p.1 hr f hfl hs
+  obtain ⟨hpu, hco⟩ := C06_apply p.1 hr hw f grids P hsh hguard
+  have hnd : p.1.nf + 1 = p.1.d := by
+    simp only [rowGridsOk, Bool.and_eq_true, beq_iff_eq] at hw
+    exact hw.1.2
+  rw [C06_loops_apply p hp]
+  cases hpul : p.1.isPulse with
+  | true =>
+    rw [hpul, if_pos rfl] at hgl
+    have hdest : p.1.dest < p.1.d := by
+      simp only [rowGridsOk, hpul, if_true, Bool.and_eq_true, beq_iff_eq, decide_eq_true_eq] at hw
+      exact hw.2.1
+    refine ⟨_, hpu hpul, fun _ => ?_, fun h => absurd h (by simp)⟩
+    exact C06_pulse_mass grids p.1.dest f P hs (by omega) (by omega) hg
+  | false =>
+    rw [hpul] at hgl
+    simp only [Bool.false_eq_true, if_false] at hgl
+    refine ⟨_, hco hpul, fun h => absurd h (by simp), fun _ => ?_⟩
+    have htl : (grids.take p.1.d).length = f.length + 1 := by rw [List.length_take]; omega
+    apply C06_newpop_mass (grids.take p.1.d) (grids.getD p.1.d #[]) f P hs (hg p.1.d (by omega)) htl
+    intro m hm
+    have hm' : m < p.1.d := by rw [htl] at hm; omega
+    have : (grids.take p.1.d).getD m #[] = grids.getD m #[] := by
+      rw [List.getD_eq_getElem?_getD, List.getElem?_take_of_lt hm', ← List.getD_eq_getElem?_getD]
+    rw [this]
+    exact hg m (by omega)
+
+example : let g : Array ℚ := #[0, 1/4, 1]
+    let P : Dens := ⟨[3, 3], fun i => ((i.getD 0 0 + 2 * i.getD 1 0 + 1 : ℕ) : ℚ)⟩
+    (findRow "phi_2D_admix_1_into_2").map (fun r => shapesOk r [1/3] [g, g] P) = some true ∧
+    (findRow "phi_2D_to_3D_admix").map (fun r => shapesOk r [1/3] [g, g, g] P) = some true ∧
+    (match applyByName "phi_2D_admix_1_into_2" [1/3] [g, g] P with | .ok Q => totalMass [g, g] Q | _ => 0) = 19 / 4 := by
+  decide +kernel
 
 end DadiVerif
